@@ -1,0 +1,11 @@
+//go:build verif
+
+// Contracts for transaction payloads (C02: decoding never panics), read by /verif/gocv.
+package payload
+
+//@ func (*InvokeCode).Deserialization
+//@   property C02
+//@   requires self != nil && source != nil && source.off <= uint64(len(source.s))
+//@   modifies self.Code, source.off
+//@   ensures source.off <= uint64(len(source.s))
+//@   ensures result == nil ==> source.off >= old(source.off)
